@@ -120,6 +120,15 @@ func (c *runCtx) propfail(prop, detail string) {
 // duplicates meet in one shard and distinct counts add up across shards).
 func (c *runCtx) mine(key ...[]byte) bool {
 	c.caseNo++
+	// every case restarts the watchdog: a case that does not return within 20 s is reported as a hang
+	if len(key) > 0 {
+		k := key[0]
+		if len(k) > 200 {
+			k = k[:200]
+		}
+		c.current.Store(c.prop + " case input(prefix)=" + hx(k))
+	}
+	c.started.Store(time.Now().UnixNano())
 	if c.nshard <= 1 {
 		return true
 	}
@@ -146,10 +155,10 @@ func (c *runCtx) startWatchdog() {
 		for {
 			time.Sleep(500 * time.Millisecond)
 			st := c.started.Load()
-			if st != 0 && time.Since(time.Unix(0, st)) > 10*time.Second {
+			if st != 0 && time.Since(time.Unix(0, st)) > 20*time.Second {
 				d, _ := c.current.Load().(string)
 				c.out.Flush()
-				fmt.Printf("!propfail\tC01\thang: no return after 10s: %s\n", d)
+				fmt.Printf("!propfail\tC01\thang: no return after 20s: %s\n", d)
 				os.Stdout.Sync()
 				os.Exit(4)
 			}
@@ -195,6 +204,7 @@ func parseRunArgs(args []string) *runCtx {
 var statsFile string
 
 func (c *runCtx) finish() {
+	c.started.Store(0)
 	c.out.Flush()
 	if statsFile != "" {
 		// keep maps small and sorted for readability
